@@ -18,7 +18,7 @@ CHECKS = {
         ref='6/C13'),
     'C06': dict(
         technique='declarative matching relation in TLA+ (Unify.tla) with laws model-checked by TLC; every state of the bounded model replayed into real Unification objects; real calls and TLC-generated life-cycle histories trace-validated',
-        text='MCUnify checks the relation\'s laws on 6 pattern pairs x all pairs of depth-1 universes (both feature systems) and emits each state as a vector; the vectors, the pattern pairs intercepted from en.py/ja.py and random linear patterns on inventory / instantiated / perturbed inputs are run on real matchers; verdict, every binding, read-after-failure and answer-once are judged by UnifyTrace.tla; all length-4 life-cycle histories of UnifyObj.tla are replayed',
+        text='MCUnify checks the relation\'s laws on 9 pattern pairs (3 of them repeating a variable inside one pattern, where the verdict is three-valued) x all pairs of depth-1 universes (both feature systems) and emits each state as a vector; the vectors, the pattern pairs intercepted from en.py/ja.py and random linear and non-linear patterns on inventory / instantiated / perturbed inputs are run on real matchers; verdict, every binding, read-after-failure and answer-once are judged by UnifyTrace.tla; all length-4 life-cycle histories of UnifyObj.tla are replayed',
         ref='6/C06'),
     'C03': dict(
         technique='CCG schemas transcribed into TLA+ (GrammarEn.tla), laws model-checked by TLC; TLC-enumerated category pairs replayed into en.apply_binary_rules and every recorded application trace-validated against the schemas',
